@@ -188,6 +188,16 @@ Proof.
     assumption.
 Qed.
 
+(* what the unspent-set update needs to know about the transactions it applies
+   (established by processTransactions in either mode) *)
+Definition txns_ok (pool : list ux) (head : block) (ts : list txn) : Prop :=
+  Forall (fun t => block_txn_constraints pool head t = Pass) ts /\
+  NoDup (out_ids ts) /\
+  Forall (fun x => ~ In x (ids pool)) (out_ids ts) /\
+  NoDup (all_ins ts).
+Lemma process_txns_ok pool head ts : process_txns pool head ts = Pass -> txns_ok pool head ts.
+Proof. intros H. destruct (process_txns_inv _ _ _ H) as [_ H']. exact H'. Qed.
+
 (* ---- induction over histories *)
 Lemma run_invariant (P : state -> Prop) (Q : block -> Prop) :
   (forall s b s', exec_block s b = (s', Accepted) -> Q b -> P s -> P s') ->
@@ -233,13 +243,16 @@ Qed.
 
 
 (* the unspent set never lists an id twice (needs no arithmetic and no id-table hypothesis) *)
+Lemma apply_preserves_nodup_ok s b head spent :
+  txns_ok (utxo s) head (b_txns b) -> insert_ok s b = true ->
+  NoDup (ids (utxo s)) -> NoDup (ids (utxo (apply_block s b spent))).
+Proof.
+  intros [_ [P2 _]] Hi Hn. rewrite apply_block_utxo. apply new_utxo_nodup; assumption.
+Qed.
 Lemma apply_preserves_nodup s b head spent :
   process_txns (utxo s) head (b_txns b) = Pass -> insert_ok s b = true ->
   NoDup (ids (utxo s)) -> NoDup (ids (utxo (apply_block s b spent))).
-Proof.
-  intros Hp Hi Hn. destruct (process_txns_inv _ _ _ Hp) as [_ [_ [P2 _]]].
-  rewrite apply_block_utxo. apply new_utxo_nodup; assumption.
-Qed.
+Proof. intros Hp. apply apply_preserves_nodup_ok with (head := head). apply process_txns_ok. assumption. Qed.
 Lemma reachable_nodup g ops : NoDup (out_ids (b_txns g)) ->
   NoDup (ids (utxo (run (init_state g) ops))).
 Proof.
